@@ -119,6 +119,118 @@ theorem C01_meaning_builder (cfg : Config) (e : BSx) (c : Circuit) (ha : cfg.aut
   have heq := C20.C20_refl_parsed_any cfg t c' hp
   exact ⟨heq, hg, fun ρ => ⟨rfl, (C20.C20_sound_parsed_any cfg cfg t t c' c' ρ hp hp heq).2.2⟩⟩
 
+
+/-! ## every configuration (`autoload_pulses` on or off), header statements first -/
+
+/-- the children of a legal program whose header statements come first -/
+theorem sxLegal_split {e : BSx} (hl : SxLegal e = true) (hf : headersFirst e = true) :
+    ∃ hs bs, e = .list (.str "circuit" :: (hs ++ bs)) ∧ (∀ x ∈ hs, GHeader x) ∧ (∀ x ∈ bs, GTop x) ∧
+      ∀ x ∈ hs ++ bs, SChildL x ∧ noBr x = true := by
+  obtain ⟨cs, rfl, hs, _⟩ := sxLegal_inv hl
+  obtain ⟨hs', bs', rfl, hh, hb⟩ := headersFirst_split hf
+  exact ⟨hs', bs', rfl, fun x hx => (hh x hx).toG, fun x hx => (hb x hx).toG, hs⟩
+
+/-- **A circuit built from a legal S-expression whose header statements come first is the circuit `parse_jaqal_string`
+makes of its own generated text — in every configuration** (any `inject_pulses`, `autoload_pulses` on or off, any
+modules), re-parsing with the same configuration. -/
+theorem C01_builder_parsed_any (cfg : Config) (e : BSx) (c : Circuit) (hl : SxLegal e = true)
+    (hf : headersFirst e = true) (h : (build cfg e).bind tooManyRegisters = .ok c) (hi : IntsBounded c) :
+    ∃ t, gen c = .ok t ∧ parseProgram cfg t = .ok c := by
+  obtain ⟨hb, ht, hone⟩ := built_inv h
+  obtain ⟨hs, bs, rfl, hh, hbd, hcs⟩ := sxLegal_split hl hf
+  rw [C07_memo_transparent] at hb
+  have hnb : ∀ x ∈ hs ++ bs, noBr x = true := fun x hx => (hcs x hx).2
+  have hfacts := buildNoMemo_facts_any cfg hh hbd hnb hb
+  have hsafe := lexSafe_of (buildNoMemo_safe_any cfg hh hbd hcs hb) hi
+  have hre := buildNoMemo_rebuild_any cfg hh hbd hnb hb hone
+  obtain ⟨t, hg, hred⟩ := Passes.C10_text_reduces c hfacts.printable hsafe
+  refine ⟨t, hg, ?_⟩
+  rw [hred cfg]
+  unfold parseBuild
+  rw [C07_memo_transparent, hre]
+  exact ht
+
+/-- `BuilderLegal` discharged in every configuration -/
+theorem C01_builder_legal_any (cfg : Config) (e : BSx) (c : Circuit) (hl : SxLegal e = true)
+    (hf : headersFirst e = true) (h : (build cfg e).bind tooManyRegisters = .ok c) (hi : IntsBounded c) :
+    BuilderLegal cfg e c := by
+  obtain ⟨t, hg, hp⟩ := C01_builder_parsed_any cfg e c hl hf h hi
+  have hpr := C01_printable_any cfg t c hp
+  have hpb : parseBuild cfg (unbuild c) = .ok c := C01_rebuild_exact_any cfg t c hp
+  exact { built := h, printable := hpr
+          lexes := C01_lex_gen c hpr (C01_lexsafe_any cfg t c hp hi)
+          rebuilds := ⟨c, hpb, C20.C20_refl_parsed_any cfg t c hp, rfl⟩ }
+
+/-- **C01 for the builder API, every configuration** -/
+theorem C01_roundtrip_builder_any (cfg : Config) (e : BSx) (c : Circuit) (hl : SxLegal e = true)
+    (hf : headersFirst e = true) (h : (build cfg e).bind tooManyRegisters = .ok c) (hi : IntsBounded c) :
+    ∃ t c', gen c = .ok t ∧ parseProgram cfg t = .ok c' ∧ circuitEq c c' = true ∧ gen c' = .ok t :=
+  C01_builder_api cfg e c (C01_builder_legal_any cfg e c hl hf h hi)
+
+/-- … with the same meaning, every configuration -/
+theorem C01_meaning_builder_any (cfg : Config) (e : BSx) (c : Circuit) (hl : SxLegal e = true)
+    (hf : headersFirst e = true) (h : (build cfg e).bind tooManyRegisters = .ok c) (hi : IntsBounded c) :
+    ∃ t, gen c = .ok t ∧ ∀ c', parseProgram cfg t = .ok c' →
+      circuitEq c c' = true ∧ gen c' = .ok t ∧
+      ∀ ρ : Sem.Env, Sem.meaning ρ c' = Sem.meaning ρ c ∧ C20.MeaningEq (Sem.meaning ρ c) (Sem.meaning ρ c') := by
+  obtain ⟨t, hg, hp⟩ := C01_builder_parsed_any cfg e c hl hf h hi
+  refine ⟨t, hg, ?_⟩
+  intro c' hp'
+  have hcc : c' = c := by rw [hp] at hp'; cases hp'; rfl
+  subst hcc
+  have heq := C20.C20_refl_parsed_any cfg t c' hp
+  exact ⟨heq, hg, fun ρ => ⟨rfl, (C20.C20_sound_parsed_any cfg cfg t t c' c' ρ hp hp heq).2.2⟩⟩
+
+/-- With `autoload_pulses=True` and header statements AFTER a macro or statement (`let` / `register` / `map`; a `usepulses`
+there is refused by the builder) the statement is expected to hold too, but is NOT proved: the simulation of the autoload
+builder by the plain one (`Lemmas/RoundTripAutoload.lean`, `auto_to_plain`) is stated for programs `hs ++ bs`, header
+statements first.  What is missing: `auto_to_plain` for an arbitrary order of the children (split the children after the
+last `usepulses`; before it nothing has touched the gate table, because the builder refuses a `usepulses` once a statement
+or macro has been recorded). -/
+def C01_builder_any_order_full : Prop :=
+  ∀ (cfg : Config) (e : BSx) (c : Circuit), SxLegal e = true → (build cfg e).bind tooManyRegisters = .ok c →
+    IntsBounded c → ∃ t, gen c = .ok t ∧ parseProgram cfg t = .ok c
+
+/-- what is proved of it: `autoload_pulses=False`, or header statements first -/
+theorem C01_builder_any_order_partial (cfg : Config) (e : BSx) (c : Circuit) (hl : SxLegal e = true)
+    (hside : cfg.autoload = false ∨ headersFirst e = true) (h : (build cfg e).bind tooManyRegisters = .ok c)
+    (hi : IntsBounded c) : ∃ t, gen c = .ok t ∧ parseProgram cfg t = .ok c := by
+  rcases hside with ha | hf
+  · exact C01_builder_parsed cfg e c ha hl h hi
+  · exact C01_builder_parsed_any cfg e c hl hf h hi
+
+/-! ## the theorems for texts are instances -/
+
+/-- **The tree of every accepted text is a legal S-expression with its header statements first** (and the circuit is what
+`build` and the register-count check make of that tree): `C01_roundtrip_builder_any` applied to it is
+`C01_roundtrip_bounded_any`. -/
+theorem C01_sxLegal_of_parsed (cfg : Config) (txt : String) (c : Circuit) (h : parseProgram cfg txt = .ok c) :
+    ∃ sx, parseText txt = .ok sx ∧ SxLegal (BSx.ofSx sx) = true ∧ headersFirst (BSx.ofSx sx) = true ∧
+      (build cfg (BSx.ofSx sx)).bind tooManyRegisters = .ok c := by
+  obtain ⟨sx, hs, bs, hp, he, hh, hb, hnb, hsafe, hnm, hbd, hpb, ht⟩ := parseProgram_shape h
+  have hnobr := buildNoMemo_no_branch hnm
+  refine ⟨sx, hp, ?_, ?_, ?_⟩
+  · rw [he]
+    exact sxLegal_of (fun x hx => ⟨hsafe x hx, hnobr x hx⟩)
+  · rw [he]
+    refine headersFirst_of ?_ ?_
+    · intro x hx
+      rcases hsafe x (List.mem_append_left _ hx) with hx' | hx'
+      · exact hx'
+      · exact absurd (rank_top_ge hx'.toG) (by have := rank_header_le (hh x hx); omega)
+    · intro x hx
+      refine ⟨?_, hnobr x (List.mem_append_right _ hx)⟩
+      rcases hsafe x (List.mem_append_right _ hx) with hx' | hx'
+      · exact absurd (rank_top_ge (hb x hx)) (by have := rank_header_le hx'.toG; omega)
+      · exact hx'
+  · rw [hbd]; exact ht
+
+/-- `C01_roundtrip_bounded_any` re-derived from the builder theorem -/
+example (cfg : Config) (txt : String) (c : Circuit) (h : parseProgram cfg txt = .ok c) (hi : IntsBounded c) :
+    ∃ t c', gen c = .ok t ∧ parseProgram cfg t = .ok c' ∧ circuitEq c c' = true ∧ gen c' = .ok t := by
+  obtain ⟨sx, _, hl, hf, hb⟩ := C01_sxLegal_of_parsed cfg txt c h
+  exact C01_roundtrip_builder_any cfg _ c hl hf hb hi
+
 #print axioms C01_builder_rebuild_exact
 #print axioms C01_builder_facts
 #print axioms C01_builder_lexsafe
@@ -126,5 +238,11 @@ theorem C01_meaning_builder (cfg : Config) (e : BSx) (c : Circuit) (ha : cfg.aut
 #print axioms C01_builder_legal
 #print axioms C01_roundtrip_builder
 #print axioms C01_meaning_builder
+#print axioms C01_builder_parsed_any
+#print axioms C01_builder_legal_any
+#print axioms C01_roundtrip_builder_any
+#print axioms C01_meaning_builder_any
+#print axioms C01_builder_any_order_partial
+#print axioms C01_sxLegal_of_parsed
 
 end Jaqal.C01
